@@ -121,6 +121,9 @@ pub struct RunResult {
     pub integrity_failures: Vec<String>,
     #[serde(default)]
     pub log: Vec<(u64, u8, u16, u8, u8)>,
+    /// set by the driver: the run was executed with atomic operations after a stall
+    #[serde(default)]
+    pub atomic_variant: bool,
 }
 
 // ---------------------------------------------------------------------------------------------
@@ -484,7 +487,7 @@ pub fn execute(plan: Plan, full: bool) -> RunResult {
         }
     }
     let integrity = w.integrity.lock().unwrap().clone();
-    RunResult { fingerprint: fp, ops: recs, schedule: sched::rle(&sch.recorded()), log: if full { sch.full_log() } else { vec![] }, sched: st, probes, integrity_failures: integrity }
+    RunResult { fingerprint: fp, ops: recs, schedule: sched::rle(&sch.recorded()), log: if full { sch.full_log() } else { vec![] }, sched: st, probes, integrity_failures: integrity, atomic_variant: false }
 }
 
 /// `sim run [--full]`: plan on stdin, result on stdout.
@@ -758,7 +761,10 @@ fn run_plan_once(plan: &Plan, full: bool, timeout_s: u64) -> Result<RunResult, S
 pub fn run_plan(plan: &Plan, full: bool) -> Result<RunResult, String> {
     use std::sync::atomic::Ordering;
     if FORCE_ATOMIC.load(Ordering::Relaxed) && plan.schedule.is_none() {
-        return run_plan_once(&atomic_variant(plan), full, 60);
+        return run_plan_once(&atomic_variant(plan), full, 60).map(|mut r| {
+            r.atomic_variant = true;
+            r
+        });
     }
     match run_plan_once(plan, full, 20) {
         Ok(r) => Ok(r),
@@ -769,7 +775,10 @@ pub fn run_plan(plan: &Plan, full: bool) -> Result<RunResult, String> {
             if n >= 3 {
                 FORCE_ATOMIC.store(true, Ordering::Relaxed);
             }
-            run_plan_once(&atomic_variant(plan), full, 60)
+            run_plan_once(&atomic_variant(plan), full, 60).map(|mut r| {
+                r.atomic_variant = true;
+                r
+            })
         }
         Err(e) if e.contains("signal") => match run_plan_once(plan, full, 20) {
             Ok(r) => Ok(r),
@@ -1695,7 +1704,7 @@ pub fn drive(tier_name: &str, seed: u64, workers: usize) -> i32 {
     let mut harness_errors: Vec<String> = vec![];
     let mut first_violation: Option<(u64, Plan, Mismatch)> = None;
     let mut n_violating_runs = 0u64;
-    let mut fingerprints: Vec<(u64, u64)> = vec![];
+    let mut fingerprints: Vec<(u64, u64, bool)> = vec![];
     let mut cap_hits = 0u64;
     let mut wall_runs = 0.0f64;
 
@@ -1758,7 +1767,7 @@ pub fn drive(tier_name: &str, seed: u64, workers: usize) -> i32 {
                     continue;
                 }
             };
-            fingerprints.push((*i, r.fingerprint));
+            fingerprints.push((*i, r.fingerprint, r.atomic_variant));
             agg_steps += r.sched.steps;
             agg_switches += r.sched.switches;
             agg_intra += r.sched.intra_op_switches;
@@ -1821,16 +1830,25 @@ pub fn drive(tier_name: &str, seed: u64, workers: usize) -> i32 {
     let mut determinism_checked = 0u64;
     let mut determinism_mismatch: Vec<u64> = vec![];
     if harness_errors.is_empty() && first_violation.is_none() {
-        let sample: Vec<(u64, u64)> = fingerprints.iter().take(t.determinism_reruns as usize).cloned().collect();
-        let res = par_map(&sample, 7, |(i, _)| {
+        let sample: Vec<(u64, u64, bool)> = fingerprints.iter().take(t.determinism_reruns as usize).cloned().collect();
+        // like with like: a run that was executed with atomic operations (after a stall) is re-executed
+        // that way; a re-execution that stalls is skipped, not judged
+        let res = par_map(&sample, 7, |(i, _, atomic)| {
             let (p, _) = gen_plan(&corpus, derive(seed, "run", *i));
-            run_plan(&p, false).map(|r| r.fingerprint)
+            if *atomic {
+                run_plan_once(&atomic_variant(&p), false, 60).map(|r| r.fingerprint)
+            } else {
+                run_plan_once(&p, false, 20).map(|r| r.fingerprint)
+            }
         });
-        for ((i, fp), r) in sample.iter().zip(res) {
-            determinism_checked += 1;
+        for ((i, fp, _), r) in sample.iter().zip(res) {
             match r {
-                Ok(f2) if f2 == *fp => {}
-                Ok(_) => determinism_mismatch.push(*i),
+                Ok(f2) if f2 == *fp => determinism_checked += 1,
+                Ok(_) => {
+                    determinism_checked += 1;
+                    determinism_mismatch.push(*i)
+                }
+                Err(e) if e == "timeout" => {}
                 Err(e) => harness_errors.push(format!("determinism rerun {}: {}", i, e)),
             }
         }
@@ -1868,10 +1886,10 @@ pub fn drive(tier_name: &str, seed: u64, workers: usize) -> i32 {
                     }
                 }
             }
-            Err(e) if e.starts_with("crashed") => (RunResult { fingerprint: 0, ops: vec![], sched: SchedStats::default(), schedule: String::new(), probes: Probes::default(), integrity_failures: vec![], log: vec![] }, crash_mismatch(&e)),
+            Err(e) if e.starts_with("crashed") => (RunResult { fingerprint: 0, ops: vec![], sched: SchedStats::default(), schedule: String::new(), probes: Probes::default(), integrity_failures: vec![], log: vec![], atomic_variant: false }, crash_mismatch(&e)),
             Err(e) => {
                 harness_errors.push(format!("re-recording the minimised plan: {}", e));
-                (RunResult { fingerprint: 0, ops: vec![], sched: SchedStats::default(), schedule: String::new(), probes: Probes::default(), integrity_failures: vec![], log: vec![] }, m.clone())
+                (RunResult { fingerprint: 0, ops: vec![], sched: SchedStats::default(), schedule: String::new(), probes: Probes::default(), integrity_failures: vec![], log: vec![], atomic_variant: false }, m.clone())
             }
         };
         let body = replay_body(&min, &mfull, &rfull, &table, original_ops);
@@ -1927,7 +1945,7 @@ pub fn drive(tier_name: &str, seed: u64, workers: usize) -> i32 {
     let mut fps = fingerprints.clone();
     fps.sort();
     let mut batch_fp = 0xcbf2_9ce4_8422_2325u64;
-    for (i, f) in &fps {
+    for (i, f, _) in &fps {
         batch_fp = fnv_add(batch_fp, &i.to_le_bytes());
         batch_fp = fnv_add(batch_fp, &f.to_le_bytes());
     }
